@@ -142,6 +142,8 @@ class FakeFs:
     def open(self, path, mode='r', *a, **k):
         self.opened.append(path)
         real = FakePath(self)._abs(path)
+        if real in self.dirs:
+            raise IsADirectoryError(21, 'Is a directory', path)
         if real not in self.files:
             raise FileNotFoundError(path)
         return io.StringIO(self.files[real])
@@ -166,7 +168,8 @@ def ref_parse_file(text):
 def ref_resolve(sc):
     fs = FakeFs(sc)
     exists = FakePath(fs).exists
-    conf_path = next((p for p in CONF_PATHS if exists(p)), None)
+    # "the first existing client configuration FILE": a directory of that name is not one
+    conf_path = next((p for p in CONF_PATHS if FakePath(fs).isfile(p)), None)
     file_vals = ref_parse_file(fs.files[FakePath(fs)._abs(conf_path)]) if conf_path else {}
     if not exists('/run/nfd/nfd.sock') and exists('/run/nfd.sock'):
         default_transport = 'unix:///run/nfd.sock'
@@ -459,7 +462,7 @@ def generate(rng, seed, tier='quick'):
         if cls == 1:
             loc = f'/var/lib/ndn/{kind}{rng.randint(0, 3)}'
             if rng.random() < 0.12:
-                loc += rng.choice(['-100%full', '.a:b', '%d', ':1'])      # characters a path may well contain
+                loc += rng.choice(['-100%full', '.a:b', '%d', ':1', ' #2', ' ;old', ' copy'])      # characters a path may well contain
             dirs.add(loc)
             if kind == 'pib' and rng.random() < 0.4:
                 dirs.add(loc + '/ndnsec-key-file')      # a key directory next to that database (it is NOT the platform default)
@@ -512,6 +515,11 @@ def generate(rng, seed, tier='quick'):
     sc = {'engine': 'clientconf', 'property': 'C20', 'seed': seed, 'config': {'turn_cost_us': 0, 'wall_gran_us': 1000},
           'frontend': rng.choice(['v2', 'v2', 'v1']), 'files': files, 'dirs': sorted(dirs), 'sockets': sorted(sockets),
           'env': env, 'cwd': cwd, 'ops': [{'k': k} for k in sorted(files)] or [{'k': 'none'}]}
+    if rng.random() < 0.05:
+        # a DIRECTORY sits where a configuration file is looked for (client.conf/ holding fragments, a packaging slip)
+        cand = [p for p in CONF_PATHS if p not in files]
+        if cand:
+            sc['dirs'] = sorted(set(sc['dirs']) | {rng.choice(cand)})
     if rng.random() < 0.12:
         # ~/.ndn is a symbolic link (a configuration kept elsewhere): '..' from there leaves the directory it points to
         sc['links'] = {HOME + '/.ndn': '/data/ndn-conf'}
